@@ -8,6 +8,13 @@ Import-free, executable.  Memory is a list of bytes starting at `msg_control`; i
 "no read outside the supplied buffer" is a statement about the log; a read past the end of the list is a `fault`
 (unmapped page).  x86_64/aarch64 layout: `size_of::<CmsgHdr>() = 16`, `size_of::<usize>() = 8`, `size_of::<Fd>() = 4`,
 little endian.
+
+The iterator is modelled for EVERY content of the memory (the header fields are whatever the bytes say): all `usize`
+arithmetic of the macros and of `next` is checked as in the debug build the harness uses (`.panic`), as is the
+`slice::from_raw_parts` precondition (`.abort`); `base` is the numeric address of `msg_control` (only `cmsg as usize +
+cmsg_len` depends on it).  The consumer reads every slice it is handed (logged; `.fault` if unmapped).  Assumed, not
+modelled: `msg_control` 8-byte aligned; stack depth of the recursive skip over non-SCM_RIGHTS headers.
+The specification side (`cmsgOk`, `wfWalk`, `rightsOf`) is the kernel's CMSG_OK walk over the same memory.
 -/
 namespace TinyVerif.Cmsg
 
